@@ -152,13 +152,13 @@ type world struct {
 	clients []*cliTask
 	quit    atomic.Bool
 
-	mu        sync.Mutex
-	canon     map[uint64][]string
-	viols     []pendViol
-	uniqTags  bool // tags are unique per proposal: a tag applied twice on a store is a violation
-	baseDelay time.Duration
-	lastFault time.Duration
-	opIdx     int
+	mu         sync.Mutex
+	canon      map[uint64][]string
+	viols      []pendViol
+	uniqTags   bool // tags are unique per proposal: a tag applied twice on a store is a violation
+	baseDelay  time.Duration
+	lastFault  time.Duration
+	opIdx      int
 	harvesting bool
 	tbuf       *[]string
 
@@ -226,7 +226,7 @@ func (w *world) flushViols() {
 // ---- cluster construction -------------------------------------------------
 
 func peerID(region uint64, storeIdx int) uint64 { return region*10 + uint64(storeIdx+1) }
-func storeOfPeer(id uint64) int                  { return int(id%10) - 1 }
+func storeOfPeer(id uint64) int                 { return int(id%10) - 1 }
 
 func dbOptions(dir string) *NoKV.Options {
 	opt := NoKV.NewDefaultOptions()
@@ -294,9 +294,7 @@ func (w *world) openNode(idx int, dir string, inc int, metas []manifest.RegionMe
 			err = fmt.Errorf("open store %d panicked: %v", idx+1, r)
 		}
 	}()
-	t0 := realNow()
 	db := NoKV.Open(dbOptions(dir))
-	dbg("open s%d inc%d %.1fms", idx+1, inc, (realNow()-t0)*1000)
 	n = &node{idx: idx, id: uint64(idx + 1), inc: inc, dir: dir, db: db, tick: 100 * time.Millisecond,
 		applied: map[uint64][]applyRec{}, tagCount: map[string]int{}, respTag: map[*pb.RaftCmdResponse]string{}, innerTag: map[any]string{},
 		isLeader: map[uint64]bool{}, lostAt: map[uint64]int64{}, term: map[uint64]uint64{}}
@@ -781,13 +779,6 @@ func (w *world) crash(idx int) bool {
 	if err := sim.CopyTree(n.dir, img); err != nil {
 		w.res.Probes["image_error"]++
 		return false
-	}
-	if dbgOn {
-		ents, _ := os.ReadDir(img)
-		for _, e := range ents {
-			fi, _ := e.Info()
-			dbg("  img %s %d", e.Name(), fi.Size())
-		}
 	}
 	n.dead = true
 	w.zombies = append(w.zombies, n)
